@@ -23,7 +23,8 @@ class _:
               "_closing": "bool", "_api_versions": "Optional[List[ApiVersion]]", "_api_versions_zero": "bool",
               "correlation_id": "int", "close_dlist": "Optional[Ref_Deferred]",
               "clients": "Optional[Dict[int, Ref_BrokerClientAPI]]", "_brokers": "Dict[int, BrokerMetadata]",
-              "_endpoint_factory": ("Any", False), "clientId": ("Any", False), "_retry_policy": ("Any", False)}
+              "_endpoint_factory": ("Ref_EndpointFactory", False), "clientId": ("Any", False), "_retry_policy": ("Any", False),
+              "_bootstrap_hosts": ("List[Tuple[str, int]]", False)}
     invariant = {"timeout-positive": "self.timeout > 0"}
     rely = {"closing-is-final": "implies(old(self._closing), self._closing)",
             # once closed the table of broker clients is gone for good (nothing creates clients any more)
@@ -155,3 +156,22 @@ method("close", "(%s) -> Optional[Ref_Deferred]" % SELF, props=["C20"],
                 "metadata-dropped[C20]": "n_calls('reset_all_metadata') == 1",
                 "waits-for-the-aggregate[C20]": "result is not None and ((self.close_dlist is not None and result == self.close_dlist) or "
                                                 "(self.close_dlist is None and called(result)))"})
+
+
+# ---- C20: the bootstrap loop neither dials nor writes once the client is closed -----------------------------------------
+@klass("ext.BootstrapProto")
+class _:
+    external = True
+    fields = {"transport": ("Ref_Transport", False)}
+    methods = {"request": dict(ret="Deferred?", trace="BootstrapWrite")}
+
+
+method("_send_bootstrap_request", "(%s, request: bytes) -> Ref_Deferred" % SELF, props=["C20", "C07"],
+       locals={"hostports": "List[Tuple[str, int]]", "protocol": "Ref_BootstrapProto", "response": "bytes", "ep": "Ref_Endpoint"},
+       raises={"CancelledError[C20]": "True", "KafkaUnavailableError[C07]": "True"},
+       loops={"for#1": dict(index="hi", inv=["True"])},
+       checkpoints={
+           # every connection attempt and every write is preceded by a fresh look at the closed flag (the coroutine is
+           # suspended, and close() may run, while a connection attempt is pending)
+           "call:connect#1": {"no-dial-after-close[C20]": "not self._closing"},
+           "call:request#1": {"no-write-after-close[C20]": "not self._closing"}})
